@@ -452,6 +452,16 @@ def audit(forest, prop, results, jobs=8, limit=None):
             seeded.append((prop, os.path.basename(d), None))
     mods = sorted(set(fn_anchor) | set(tab_anchor))
     benign = [(prop, name, mods) for name in BENIGN]
+    # behaviour-preserving refactorings written by independent sub-agents (benign/<id>/patch.diff): negative controls
+    refactorings = []
+    for d in sorted(glob.glob(os.path.join(core.VERIF, 'benign', 'C*-*'))):
+        if os.environ.get('VERIF_ALL_REFACTORINGS') != '1' and not os.path.basename(d).startswith(prop + '-'):
+            continue
+        try:
+            patch = open(os.path.join(d, 'patch.diff'), encoding='utf-8').read()
+            refactorings.append((prop, 'refactoring ' + os.path.basename(d), apply_patch_text(sources, patch)))
+        except (OSError, Unknown):
+            refactorings.append((prop, 'refactoring ' + os.path.basename(d), None))
     unknown_msgs = []
     killed, unknown, survived = [], [], []
     by_rule = {}
@@ -459,6 +469,7 @@ def audit(forest, prop, results, jobs=8, limit=None):
         fut_m = ex.map(_run_mutant, tasks, chunksize=4)
         fut_s = [ex.submit(_run_source_variant, a) for a in seeded if a[2] is not None]
         fut_b = [ex.submit(_run_benign, a) for a in benign]
+        fut_r = [ex.submit(_run_source_variant, a) for a in refactorings if a[2] is not None]
         for modname, desc, viol, unk in fut_m:
             rec = {'module': modname, 'mutant': desc}
             if viol:
@@ -484,6 +495,14 @@ def audit(forest, prop, results, jobs=8, limit=None):
             benign_res.append({'variant': name, 'violations': viol, 'analysis_error_in': unk})
             if viol:
                 unknown_msgs.append(f'benign variant {name} is reported as a violation by {viol} (false alarm)')
+        for fu in fut_r:
+            name, viol, unk = fu.result()
+            benign_res.append({'variant': name, 'violations': viol, 'analysis_error_in': unk})
+            if viol:
+                unknown_msgs.append(f'{name} (behaviour-preserving) is reported as a violation by {viol} (false alarm)')
+        for a in refactorings:
+            if a[2] is None:
+                benign_res.append({'variant': a[1], 'violations': [], 'analysis_error_in': ['patch does not apply to the current tree']})
     n = len(tasks)
     print(f'[mutation audit] {prop}: {n} mutants analysed of {total_sites} sites ({len(killed)} reported as violations, {len(unknown)} analysis-errors, '
           f'{len(survived)} not reported); seeded variants reported: {sum(1 for s in seeded_res if s["reported_by"])}/{len(seeded_res)}; '
